@@ -177,7 +177,7 @@ def check_terminal_item(ck: Checker, rid: str, p: Pair):
         pth2 = path_avoiding(cfg, [cfg.entry], {src}, avoid=term_puts, edge_ok=lambda x: not (x.src in flag_tests and x.kind == flag_tests[x.src]))
         if pth2 is None:
             continue
-        if e.kind == 'exc':
+        if e.is_exc:
             what = f'`{"/".join(sorted(e.data))}` escaping from L{cfg.nodes[src].lineno}'
         else:
             what = f'the exit at L{cfg.nodes[src].lineno}'
